@@ -42,6 +42,19 @@ IntegrityError for a re-INSERT of an existing key, StaleDataError / ObjectDelete
 objects made detached without a row); the state check runs regardless.  After a violation
 the instance concerned is *tainted* (not judged again in that history) so one defect is not
 reported as a chain; the mechanism is ``<symptom>:in-<operation class>``.
+``delete()`` of an instance that already is / was deleted is judged as a whole (it must
+raise like ``add()`` does, or leave the instance alone) instead of event by event.
+
+Fires on the tree as of this writing (candidate genuine defects, see the group report):
+``event-destination-mismatch:deleted_to_detached:actual-transient:in-rollback`` (INSERT +
+DELETE rolled back: the object goes deleted -> transient, the ``_deleted`` flag stays),
+``event-source-mismatch:deleted_to_persistent:shadow-persistent:in-rollback`` (event for
+objects only marked by ``delete()``), ``instance-still-deleted-after-commit:
+expire_on_commit-False``, ``delete-accepts-already-deleted-instance``,
+``event-source-mismatch:{pending_to_transient,persistent_to_transient,persistent_to_detached,
+deleted_to_detached}:shadow-{transient,detached}:in-{rollback,expunge,commit}`` (events for
+instances that already left the session: snapshot collections keep expunged states;
+``expunge()`` cascades onto non-members, even of another session).
 """
 from __future__ import annotations
 
